@@ -82,6 +82,10 @@ fn build(tier: Tier) -> Box<dyn Check> {
     let mains = m.seq_range(1, 2);
     let f1 = bodies.product(&mains, |b, m| program(&b, &m));
     let f2 = b.seq_range(1, 1).product(&m.seq_range(3, 3), |b, m| program(&b, &m));
+    if tier == Tier::Thorough {
+        let f3 = b.seq_range(2, 2).product(&m.seq_range(3, 3), |b, m| program(&b, &m));
+        return Box::new(C05 { fams: vec![("body x caller".into(), f1), ("one-statement body x 3 caller statements".into(), f2), ("thresholds".into(), Space::of(super::scale::programs())), ("two-statement body x 3 caller statements".into(), f3)] });
+    }
     Box::new(C05 { fams: vec![("body x caller".into(), f1), ("one-statement body x 3 caller statements".into(), f2), ("thresholds".into(), Space::of(super::scale::programs()))] })
 }
 
